@@ -1,6 +1,6 @@
 """C04 — fragmentation and reassembly are exact for every packet size."""
 from props import _hc
-from hc_oracles import frame_size_oracle, subsequence_oracle
+from hc_oracles import frame_size_oracle, subsequence_oracle, completion_oracle
 
 PROP = "C04"
 COQ_FILE = "props/C04.v"
@@ -14,6 +14,11 @@ ASSUMPTIONS = [
 THEOREM_STATEMENTS = ["C04_reassembly_any_order: forall d order, Forall (fun i => i < nfrag d) order -> let b := fold_left (feed d) order (fb_new (nfrag d)) in fb_finished b = true -> fb_finalize b = d"]
 
 
+def ideal_completion(ops, out):
+    """on a link that loses nothing every submitted packet (Unreliable, Persistent, Reliable) arrives"""
+    return completion_oracle(ops, out, modes=(1, 2, 3))
+
+
 def streams(seed, tier):
     return _hc.build_streams(["pair", "ideal", "hostile", "reuse"], seed, tier, 0.6) + [_hc.codec_roundtrip_stream(seed, tier)]
 
@@ -21,4 +26,4 @@ def streams(seed, tier):
 def oracle(name, ops, out):
     if _hc.stream_of(name) == "rt":
         return _hc.codec_oracle(name, ops, out)
-    return _hc.run_oracles({"*": [frame_size_oracle], "pair": [subsequence_oracle], "ideal": [subsequence_oracle], "reuse": [subsequence_oracle]}, name, ops, out)
+    return _hc.run_oracles({"*": [frame_size_oracle], "pair": [subsequence_oracle], "ideal": [subsequence_oracle, ideal_completion], "reuse": [subsequence_oracle]}, name, ops, out)
